@@ -284,6 +284,12 @@ def conclude(mod, tier, seed, results, by_id, inconclusive, t_start, out):
                            seed=seed, tier=tier), f, indent=1)
         replay_paths.append((cid, v, os.path.relpath(path, ROOT)))
 
+    try:
+        os.makedirs(os.path.join(ROOT, '.cache'), exist_ok=True)
+        with open(os.path.join(ROOT, '.cache', f'violations_{pid}.json'), 'w') as f:
+            json.dump([dict(id=cid, cls=by_id.get(cid, {}).get('cls'), **v) for cid, v in violations], f, indent=1)
+    except Exception:
+        pass
     wall = time.time() - t_start
     evidence = dict(
         property_id=pid, tier=tier, seed=int(seed), level='exploration',
